@@ -92,7 +92,9 @@ def run(ctx, res):
     cf = run_confinement(ctx)
     handlers, helpers, inter = handler_functions(ctx)
     hs = handlers_of(ctx, lambda t: (t[0] in FLAT and t[1] in BODY) or (t[0] in BODY and t[1] in FLAT))
-    ctx.require(res, "R2.1", len(hs), 10, "flat x body handlers")
+    from .c01 import covered_pairs
+    ctx.require(res, "R2.1", len(covered_pairs(ctx, lambda t: (t[0] in FLAT and t[1] in BODY) or (t[0] in BODY and t[1] in FLAT))), 10,
+                "flat x body operand pairs bound to a handler")
     total = 0
     for fi in hs + helpers:
         total += report_function(ctx, res, cf, fi, "R2.1")
